@@ -169,7 +169,7 @@ def one_proof(env, st, value, minv, exp, min_bits, blind=BLIND, nonce=NONCE, msg
 def grid_case(env, case, st):
     value, exps, bits, thorough = case
     k = 0
-    for minv in U64A if thorough else U64S:
+    for minv in U64S:
         if minv > value and minv != value + 1:
             continue
         for exp in exps:
@@ -253,7 +253,7 @@ def main():
     for b in cfgs:
         run.cov["builds"][b] = B.source_hash()[:16]
     exps = list(range(-2, 20)) if thorough else [-2, -1, 0, 1, 2, 9, 17, 18, 19]
-    bits = list(range(-1, 66)) if thorough else [-1, 0, 1, 2, 31, 32, 33, 61, 62, 63, 64, 65]
+    bits = [-1, 0, 1, 2, 3, 7, 8, 15, 16, 31, 32, 33, 47, 48, 60, 61, 62, 63, 64, 65] if thorough else [-1, 0, 1, 2, 31, 32, 33, 61, 62, 63, 64, 65]
     core = [(0, 0, 0, 0), (1, 0, 0, 1), (5, 0, -1, 0), (1000, 0, 0, 12), (1000, 100, 2, 0), (123456789, 0, 3, 8), (2**32, 1, 0, 33), (10**18, 0, 18, 0),
             (2**62, 0, 0, 63), (2**63 - 2, 2**63 - 2, 0, 0), (2**64 - 1, 0, 0, 64), (255, 0, 0, 8)]
     for cfg in cfgs:
@@ -266,7 +266,7 @@ def main():
             for e in ee:
                 split.append((v, (e,), bb, t))
         run_phase(run, "%s/clamp-product" % cfg, grid_case, split, setup=setup(cfg),
-                  rule="full product value x min_value (both from the U64 alphabet%s, min_value <= value plus min_value = value+1) x exp %s x min_bits %s; documented-invalid parameters must be refused, documented-valid ones must succeed, the grey zone may do either; every success must verify with min <= value <= max, agree with info, rewind to (value, blind) with the creator's nonce only, respect max_size, be deterministic, and be accepted with the same range by the specified (model) verifier" % (
+                  rule="full product value (U64 alphabet%s) x min_value (16 boundary values, min_value <= value plus min_value = value+1) x exp %s x min_bits %s; documented-invalid parameters must be refused, documented-valid ones must succeed, the grey zone may do either; every success must verify with min <= value <= max, agree with info, rewind to (value, blind) with the creator's nonce only, respect max_size, be deterministic, and be accepted with the same range by the specified (model) verifier" % (
                       "" if thorough else " (16 values)", exps, bits))
         run_phase(run, "%s/single-deviations" % cfg, deviation_case, core if (first or thorough) else core[::3], setup=setup(cfg),
                   rule="12 core parameter points x {3 generators, message lengths 0,1,31,32,33,127,128,129,capacity-1/0/+1,3968,4000, extra-commit lengths 0,1,32,33,100, blinds 1,n-1,n,2^256-1, nonces 0,n,2^256-1, output buffers 0,64,65,needed-1,needed,needed+1,5134}")
